@@ -973,10 +973,16 @@ func ruleScaleWire(c *Ctx) {
 	// the whole constructor on every key spelling (7 letters x natural, sharp, flat x major, minor = 42), by folding: the 28
 	// keys that have a conventional signature get the seven notes, accidentals and counts of the derived scale, the other
 	// 14 are refused. When this folds, it stands for the shape obligations below that it subsumes.
-	if problem, n, ok := c.scalesByFolding(fn); ok {
+	if problem, n, ok := c.scalesVerdict(); ok {
 		c.site(1)
 		c.check(problem == "", name+"|domain", c.pos(fn.Pos()), name, fmt.Sprintf("%d key spellings folded: notes, accidentals and signature counts of the derived scale for the 28 keys, an error for the rest", n), name+": "+problem)
 		c.scalesFolded = true
+		if problem == "" {
+			c.site(n - 1) // every folded spelling is a site of this rule
+			// how the constructor gets there (which table it looks in, how a note's accidental is chosen, where the counts
+			// come from) is decided with it
+			return
+		}
 	}
 	// lookup miss -> error
 	c.site(1)
@@ -2120,6 +2126,20 @@ func (c *Ctx) checkDecodersKeepWhatTheyRead() {
 		}
 		c.check(early == "", key+"|keeps", c.pos(fn.Pos()), fname(fn), "every successful return comes after a store through the receiver", fmt.Sprintf("%s: succeeds (%s) without storing anything through the receiver: the value stays what it was - the zero value, which no constructor would hand out - and the text in the document is accepted unread", fname(fn), early))
 	}
+}
+
+// scalesVerdict: scalesByFolding, once per run.
+func (c *Ctx) scalesVerdict() (string, int, bool) {
+	if c.scalesFold == nil {
+		fn := c.fn("op", "NewScale")
+		if fn == nil {
+			c.scalesFold = &foldVerdict{}
+		} else {
+			p, n, ok := c.scalesByFolding(fn)
+			c.scalesFold = &foldVerdict{p, n, ok}
+		}
+	}
+	return c.scalesFold.problem, c.scalesFold.n, c.scalesFold.ok
 }
 
 // scalesByFolding folds op.NewScale on all 42 key spellings and compares with the independently derived scale.
